@@ -109,6 +109,72 @@ func (n Node) Deref() (Node, error) {
 	}
 }
 
+// IsOpaqueKey tells whether the member k of a Swagger object holds free-form data (vendor extensions, examples,
+// defaults, enum values) rather than Swagger objects: the library treats such values as opaque JSON, so a "$ref"
+// member inside them is data, not a reference. Names of the generators' alphabet never collide with these keys.
+func IsOpaqueKey(k string) bool {
+	return strings.HasPrefix(k, "x-") || k == "example" || k == "examples" || k == "default" || k == "enum"
+}
+
+// opaqueUnder is IsOpaqueKey in context: "default" directly under a "responses" object is the default response.
+func opaqueUnder(parent, k string) bool {
+	return IsOpaqueKey(k) && !(k == "default" && parent == "responses")
+}
+
+func lastToken(ptr, sep string) string {
+	if i := strings.LastIndex(ptr, sep); i >= 0 {
+		return ptr[i+len(sep):]
+	}
+	return ptr
+}
+
+// LiteralDiff compares two JSON values without following any $ref.
+func LiteralDiff(a, b any, where string) string { return literalDiff(a, b, where) }
+
+func literalDiff(a, b any, where string) string {
+	switch va := a.(type) {
+	case map[string]any:
+		vb, ok := b.(map[string]any)
+		if !ok {
+			return fmt.Sprintf("%s: object vs %T", where, b)
+		}
+		for _, k := range sortedKeys(va) {
+			cb, ok := vb[k]
+			if !ok {
+				return fmt.Sprintf("%s: key %q missing on the right", where, k)
+			}
+			if d := literalDiff(va[k], cb, where+"/"+k); d != "" {
+				return d
+			}
+		}
+		for _, k := range sortedKeys(vb) {
+			if _, ok := va[k]; !ok {
+				return fmt.Sprintf("%s: key %q missing on the left", where, k)
+			}
+		}
+		return ""
+	case []any:
+		vb, ok := b.([]any)
+		if !ok {
+			return fmt.Sprintf("%s: array vs %T", where, b)
+		}
+		if len(va) != len(vb) {
+			return fmt.Sprintf("%s: array length %d vs %d", where, len(va), len(vb))
+		}
+		for i := range va {
+			if d := literalDiff(va[i], vb[i], where+"/"+fmt.Sprint(i)); d != "" {
+				return d
+			}
+		}
+		return ""
+	default:
+		if fmt.Sprintf("%T:%v", a, a) != fmt.Sprintf("%T:%v", b, b) {
+			return fmt.Sprintf("%s: %v vs %v", where, a, b)
+		}
+		return ""
+	}
+}
+
 // EqOpts tunes the comparison.
 type EqOpts struct {
 	// IgnoreKey reports object keys of the right-hand side that are ignored at a given node.
@@ -166,6 +232,12 @@ func diff(a, b Node, o *EqOpts, assumed map[string]bool, where string) string {
 				}
 				return fmt.Sprintf("%s: key %q missing on the %s", where, k, side)
 			}
+			if opaqueUnder(lastToken(where, "/"), k) {
+				if d := literalDiff(ca, cb, where+"/"+k); d != "" {
+					return d
+				}
+				continue
+			}
 			if d := diff(da.child(k, ca), db.child(k, cb), o, assumed, where+"/"+k); d != "" {
 				return d
 			}
@@ -208,6 +280,9 @@ func ScanRefs(v any, tokens []string, out *[]RefOccurrence) {
 			*out = append(*out, RefOccurrence{Tokens: append([]string(nil), tokens...), Ref: r})
 		}
 		for _, k := range sortedKeys(t) {
+			if len(tokens) > 0 && opaqueUnder(tokens[len(tokens)-1], k) || len(tokens) == 0 && IsOpaqueKey(k) {
+				continue // free-form data: a "$ref" member in there is not a reference
+			}
 			ScanRefs(t[k], append(tokens, k), out)
 		}
 	case []any:
@@ -242,6 +317,9 @@ func RefGraphCyclic(b *Bundle, rootFile string) (bool, error) {
 				return visit(tn)
 			}
 			for _, k := range sortedKeys(t) {
+				if opaqueUnder(lastToken(n.Ptr, "\x00"), k) {
+					continue
+				}
 				if c, err := walk(n.child(k, t[k])); c || err != nil {
 					return c, err
 				}
